@@ -274,7 +274,10 @@ class Lib:
         k = key.term
         if isinstance(v, RecordV) or isinstance(v, Ref) and isinstance(run.deref(v), Obj):
             fields = v.fields if isinstance(v, RecordV) else run.deref(v).fields
-            nm = m
+            was_empty = not m.cols
+            nm = MapO(m.keys, m.cols, m.vkinds, m.record_cls) if was_empty else m
+            if was_empty and getattr(m, 'shared_rng', None) is not None:
+                nm.shared_rng = m.shared_rng
             for f, x in fields.items():
                 if f == 'rng' and isinstance(x, Ref) and (not m.cols or '#rng_shared' in nm.cols):
                     if '#rng_shared' not in nm.cols:
@@ -284,7 +287,7 @@ class Lib:
                         nm.vkinds['#rng_state'] = 'rngstate'
                     continue
                 if f not in nm.cols:
-                    if not m.cols:
+                    if was_empty:
                         vk = _vkind_of(x)
                         nm.cols[f] = fresh('col_' + f, z3.ArraySort(Arm, VKIND_SORT[vk]))
                         nm.vkinds[f] = vk
@@ -382,6 +385,8 @@ class Lib:
             if attr in base.fields:
                 return base.fields[attr]
             return LibRef('record.' + attr, base)
+        if isinstance(base, Lazy) and base.kind == 'setof':
+            return LibRef('set.' + attr, base)
         raise Unsupported('attribute %s of %r' % (attr, base))
 
     # ---------------------------------------------------------------------------------- getitem
@@ -579,8 +584,26 @@ class Lib:
                 if isinstance(x, ArmV):
                     return SeqV('A', T.arepeat(x.term, n), True)
                 return run.st.alloc(SymListO(n, z3.K(Int, box(run, x)), ekind_of(run, x)))
+        if isinstance(a, Lazy) and isinstance(b, Lazy) and a.kind == b.kind == 'setof' and op in ('BitAnd', 'BitOr', 'Sub'):
+            return self.set_op(run, op, a, b)
         from .libnp import np_binop
         return np_binop(self, run, op, a, b, inplace)
+
+    def set_op(self, run, op, a, b):
+        """intersection / union / difference of two sets of labels: a set again (its members are characterised, its
+        iteration order is not)"""
+        sa = self.as_seq(run, a.payload)
+        sb = self.as_seq(run, b.payload) if isinstance(b, Lazy) else self.as_seq(run, b)
+        if sa is None or sb is None or sa.kind != 'A' or sb.kind != 'A':
+            raise Unsupported('set operation on other than label sets')
+        nm = {'BitAnd': 'aset_and', 'BitOr': 'aset_or', 'Sub': 'aset_sub'}[op]
+        f = F(nm, ASeq, ASeq, ASeq)
+        s_, t_, x_ = z3.Const('s', ASeq), z3.Const('t', ASeq), z3.Const('x', Arm)
+        rel = {'BitAnd': z3.And(T.amem(s_, x_), T.amem(t_, x_)), 'BitOr': z3.Or(T.amem(s_, x_), T.amem(t_, x_)),
+               'Sub': z3.And(T.amem(s_, x_), z3.Not(T.amem(t_, x_)))}[op]
+        axiom(nm + '.mem', forall([s_, t_, x_], T.amem(f(s_, t_), x_) == rel, [T.amem(f(s_, t_), x_)]), [nm], 'definitional')
+        axiom(nm + '.distinct', forall([s_, t_], T.adistinct(f(s_, t_)), [f(s_, t_)]), [nm], 'definitional')
+        return Lazy('setof', payload=SeqV('A', f(sa.term, sb.term), True))
 
     def list_concat(self, run, a, b):
         def as_seq(v):
